@@ -674,7 +674,9 @@ def insertion_unit(res):
                         if len(forms) != 3 or len(new) != 1 or not (untouched(0) and untouched(1)):
                             return False
                         tgt = new[0]
-                        if not any(tgt is x for x in data["instruction_forms_dict"]["sub"]):
+                        # filed in the per-mnemonic index under its own mnemonic (the statement does not say in which spelling: the
+                        # emitted model is written from the list, not from the index; see DESIGN section 11, round 6, C07 remark 4)
+                        if not any(tgt is x for k_, v_ in data["instruction_forms_dict"].items() if k_.upper() == "SUB" for x in v_):
                             return False
                     else:
                         if len(forms) != 2 or not any(f is old[0] for f in forms) or not any(f is old[1] for f in forms) or not untouched(0):
